@@ -4,6 +4,7 @@ from collections import OrderedDict
 import copy
 
 from ..custom import _custom_marking_builder
+from ..exceptions import CustomContentError
 from ..markings import _MarkingsMixin
 from ..markings.utils import check_tlp_marking
 from ..properties import (
@@ -109,7 +110,9 @@ class MarkingProperty(Property):
 
     def clean(self, value, allow_custom=False):
         if type(value) in OBJ_MAP_MARKING.values():
-            return value, False
+            if value.has_custom and not allow_custom:
+                raise CustomContentError("custom content encountered")
+            return value, value.has_custom
         else:
             raise ValueError("must be a Statement, TLP Marking or a registered marking.")
 
@@ -151,7 +154,11 @@ class MarkingDefinition(_STIXBase20, _MarkingsMixin):
 
             if not isinstance(kwargs['definition'], marking_type):
                 defn = _get_dict(kwargs['definition'])
-                kwargs['definition'] = marking_type(**defn)
+                kwargs['definition'] = marking_type(
+                    allow_custom=kwargs.get('allow_custom', False),
+                    interoperability=kwargs.get('interoperability', False),
+                    **defn
+                )
 
         super(MarkingDefinition, self).__init__(**kwargs)
 
